@@ -178,6 +178,7 @@ type TypeRef struct {
 	Type     *TypeDecl
 	Ptr      bool
 	Via      *TypeDecl // alias declaration used instead of the name (C13)
+	ViaPtr   *TypeDecl // alias of the pointer type (type PAl = *T) used instead of *T (C13)
 	Paren    bool      // (T) where allowed
 	ParenAll bool      // (*T): parentheses around the whole pointer type (receivers)
 	Wrap     string    // composite type built from the mention: "[]", "[2]", "map[string]", "chan ", "..." (variadic parameter), "[]" + pointer = []*T
